@@ -5,6 +5,7 @@ import (
 	"go/types"
 	"os"
 	"path/filepath"
+	"regexp"
 	"sort"
 	"strings"
 	"sync"
@@ -19,6 +20,7 @@ type FuncReport struct {
 	Contract    *Contract
 	Obls        []*Obligation
 	Unsupported string
+	Renamed     string // binding of renamed locals found by verifyFunctionRenamed
 	Assumptions []string
 	Havocked    []string
 	Inlined     []string
@@ -67,8 +69,10 @@ func (w *World) sortSliceCall(fr *Frame, st *State, name string, args []*Val) {
 	es := w.sortOf(et)
 	key := w.elemsKeyT(et)
 	n := slen(sl.T)
+	var lastS2 *State
 	evalLess := func(tag string) (Term, Term, Term, Term) {
 		s2 := st.clone()
+		lastS2 = s2
 		contents := w.sc.fresh("sort.contents."+tag, arraySort(SInt, es))
 		E := w.hget(s2, key)
 		w.hset(s2, key, store(E, sarr(sl.T), contents))
@@ -85,6 +89,32 @@ func (w *World) sortSliceCall(fr *Frame, st *State, name string, args []*Val) {
 		return r.T, sel(contents, add(soff(sl.T), i)), sel(contents, add(soff(sl.T), j)), i
 	}
 	r1, a1, b1, _ := evalLess("a")
+	// the contract may state what the comparator orders by (sortkey): the
+	// comparator is then checked to be "key(a) < key(b)" and the slice is
+	// known to be in ascending key order afterwards
+	var sk *SortKey
+	if fr.top && fr.contract != nil {
+		sk = fr.contract.SortKeys[ord]
+	}
+	if sk != nil {
+		keyE, err := parseCExpr(sk.Text)
+		if err != nil {
+			unsupported("sortkey %d: %v", ord, err)
+		}
+		kenv := w.contractEnv(fr, lastS2, fr.entry)
+		ka := w.eval(kenv.with(sk.Var, &Val{T: a1, Typ: et}), keyE)
+		kb := w.eval(kenv.with(sk.Var, &Val{T: b1, Typ: et}), keyE)
+		var lessT Term
+		switch ka.T.Sort {
+		case SString:
+			lessT = mk(SBool, "str.<", ka.T, kb.T)
+		case SInt:
+			lessT = lt(ka.T, kb.T)
+		default:
+			unsupported("sortkey %d: keys of sort %s", ord, ka.T.Sort)
+		}
+		w.oblige("call.pre", fmt.Sprintf("call.%s.%d.orders-by-key", name, ord), st.cond, eq(r1, lessT), true, props)
+	}
 	r2, a2, b2, _ := evalLess("b")
 	w.oblige("call.pre", fmt.Sprintf("call.%s.%d.pre.orders-the-slice", name, ord), st.cond,
 		implies(and(eq(a1, a2), eq(b1, b2)), eq(r1, r2)), true, props)
@@ -101,11 +131,34 @@ func (w *World) sortSliceCall(fr *Frame, st *State, name string, args []*Val) {
 	w.sc.assume(implies(st.cond, Term{fmt.Sprintf("(forall ((sp! Int)) (! (=> (and (<= 0 sp!) (< sp! %s)) (and (<= 0 (%s sp!)) (< (%s sp!) %s) (= (select %s (+ %s sp!)) (select %s (+ %s (%s sp!)))))) :pattern ((%s sp!))))",
 		n.S, fnm, fnm, n.S, perm.S, soff(sl.T).S, old.S, soff(sl.T).S, fnm, fnm), SBool}))
 	w.hset(st, key, store(E, sarr(sl.T), perm))
+	if sk != nil {
+		w.sortSeq++
+		sv := fmt.Sprintf("sorted__%d", w.sortSeq)
+		re := regexp.MustCompile(`(^|[^\w.])` + regexp.QuoteMeta(sk.Var) + `($|[^\w(])`)
+		at := func(ix string) string { return re.ReplaceAllString(sk.Text, "${1}"+sv+"["+ix+"]${2}") }
+		text := fmt.Sprintf("forall si__ int, sj__ int :: 0 <= si__ && si__ < sj__ && sj__ < len(%s) ==> !((%s) < (%s))", sv, at("sj__"), at("si__"))
+		fact, err := parseCExpr(text)
+		if err != nil {
+			unsupported("sortkey %d: %v", ord, err)
+		}
+		env := w.contractEnv(fr, st, fr.entry)
+		env = env.with(sv, &Val{T: sl.T, Typ: sl.Typ})
+		w.sc.assume(implies(st.cond, w.evalBool(env, fact)))
+		w.noteQuantFacts(st.cond, env, fact)
+		w.assumption("sort.Slice: under its preconditions (checked: the comparator is a strict order of the elements and equals 'key(a) < key(b)') the slice afterwards holds a permutation of its elements in ascending key order")
+		return
+	}
 	w.assumption("sort.Slice: under its precondition (checked) the slice afterwards holds a permutation of its elements sorted by the comparator; sortedness is not used")
 }
 
 // verifyFunction generates the obligations of one function contract.
 func verifyFunction(l *Loaded, specs *Specs, ct *Contract) (rep *FuncReport, w *World) {
+	return verifyFunctionAliased(l, specs, ct, nil)
+}
+
+// verifyFunctionAliased verifies fn with the contract's local-variable names
+// bound to the given locals of the body (contract name -> name in the code).
+func verifyFunctionAliased(l *Loaded, specs *Specs, ct *Contract, localAlias map[string]string) (rep *FuncReport, w *World) {
 	rep = &FuncReport{Pkg: ct.Pkg, Name: ct.Name, Contract: ct}
 	w = newWorld(l, specs)
 	w.curFn = shortPkg(ct.Pkg) + "." + ct.Name
@@ -135,11 +188,24 @@ func verifyFunction(l *Loaded, specs *Specs, ct *Contract) (rep *FuncReport, w *
 	st := &State{cond: tTrue, heap: map[string]Term{}, cells: map[cellID]Term{}}
 	alloc0 := w.hget(st, allocKey)
 	w.sc.assume(le(intLit(0), alloc0))
+	// the contract's names for the parameters bind by position ("params"
+	// clause), so renaming a parameter does not touch the contract
+	if len(ct.Params) > 0 {
+		if len(ct.Params) != len(fn.Params) {
+			unsupported("contract of %s names %d parameters, the function has %d", ct.Name, len(ct.Params), len(fn.Params))
+		}
+		for i, p := range fn.Params {
+			w.bindName(ct.Params[i], p.Name())
+		}
+	}
+	for k, v := range localAlias {
+		w.bindName(k, v)
+	}
 	// parameters
 	for _, p := range fn.Params {
 		v := &Val{T: w.sc.declare("in."+p.Name(), w.sortOf(p.Type())), Typ: p.Type()}
 		fr.vals[p] = v
-		fr.params[p.Name()] = v
+		fr.params[w.contractNameOf(p.Name())] = v
 		w.assumeLoaded(st, v)
 	}
 	for _, fv := range fn.FreeVars {
@@ -246,6 +312,21 @@ func verifyFunction(l *Loaded, specs *Specs, ct *Contract) (rep *FuncReport, w *
 			}
 		}
 	}
+	// a loop clause for a loop the body does not have (any more) is undecided, not passed
+	if fr.loops != nil {
+		var ks []int
+		for k := range ct.Loops {
+			ks = append(ks, k)
+		}
+		sort.Ints(ks)
+		for _, k := range ks {
+			if k >= 1 && k <= len(fr.loops.isHeader) {
+				continue
+			}
+			o := w.oblige("loop.init", fmt.Sprintf("loop%d.target", k), tTrue, tFalse, true, ct.Props)
+			o.Result = &SolverResult{Status: "target-missing", Output: fmt.Sprintf("the contract has clauses for loop %d of %s, which has %d loop(s)", k, ct.Name, len(fr.loops.isHeader))}
+		}
+	}
 	// an "at" assertion whose instruction no longer exists in the body is undecided, not passed
 	for _, as := range ct.Asserts {
 		if !w.firedAsserts[as] {
@@ -255,6 +336,11 @@ func verifyFunction(l *Loaded, specs *Specs, ct *Contract) (rep *FuncReport, w *
 			}
 			if as.Ord == 0 && as.Kind == "mapupdate" {
 				// "every map update": none left is not a failure by itself
+				continue
+			}
+			if as.Kind == "fieldstore" {
+				o := w.oblige("assert", fmt.Sprintf("at.fieldstore.%s.%s", as.Field, as.Clause.Label), tTrue, tFalse, as.Clause.Star, props)
+				o.Result = &SolverResult{Status: "target-missing", Output: fmt.Sprintf("the contract constrains the stores to %s made by %s, and the body no longer makes one", as.Field, ct.Name)}
 				continue
 			}
 			o := w.oblige("assert", fmt.Sprintf("at.%s%d.%s", as.Kind, as.Ord, as.Clause.Label), tTrue, tFalse, as.Clause.Star, props)
@@ -278,7 +364,7 @@ func verifyFunction(l *Loaded, specs *Specs, ct *Contract) (rep *FuncReport, w *
 		// the contract itself is assumed; only the obligations at the calls made by the body are kept
 		var kept []*Obligation
 		for _, o := range w.obls {
-			if (o.Kind == "call.pre" && o.Star) || o.Kind == "guard" {
+			if (o.Kind == "call.pre" && o.Star) || o.Kind == "guard" || (o.Kind == "assert" && o.Star) {
 				kept = append(kept, o)
 			}
 		}
